@@ -4,6 +4,7 @@ import (
 	"fmt"
 	"go/token"
 	"go/types"
+	"sort"
 	"strings"
 
 	"golang.org/x/tools/go/ssa"
@@ -409,6 +410,7 @@ func checkC17(p *Program, r *Report) {
 			}
 		}
 	}
+	checkWireFieldsKnown(p, r, "C17.fields")
 }
 
 // onlyEmptinessOfNodeCount: within its function, the store is control
@@ -767,4 +769,60 @@ func fromPrefixCounts(v ssa.Value, d int) bool {
 		return n > 0
 	}
 	return false
+}
+
+// checkWireFieldsKnown (C17.fields): the size argument of C17 goes field by field over the serialized
+// message: what each section costs per node or per key is judged by the rules above for the fields they
+// know. A protobuf field added to one of the message types (a per-level table, a cache that is written
+// out) is a contribution to the serialized size that none of them has looked at: the obligation is
+// undecided until the field is added to the analysed set — deliberately so, a new wire field is a format
+// change, not a refactoring.
+var analysedWireFields = map[string][]string{
+	"Slim":      {"BigInnerCnt", "ShortSize", "NodeTypeBM", "Inners", "ShortBM", "ShortTable", "InnerPrefixes", "LeafPrefixes", "Leaves"},
+	"Bitmap":    {"Words", "RankIndex", "SelectIndex"},
+	"VLenArray": {"N", "EltCnt", "PresenceBM", "PositionBM", "FixedSize", "Bytes"},
+}
+
+func checkWireFieldsKnown(p *Program, r *Report, rule string) {
+	saved := r.curRule
+	defer func() { r.curRule = saved }()
+	r.Rule(rule, "types", "every serialized field of the index message is in the analysed set", 3)
+	r.Explanation += " (fields) every protobuf field of the message types Slim, Bitmap and VLenArray is one of the fields whose size contribution the rules judge; a field added to the serialized form leaves the obligation undecided."
+	names := make([]string, 0, len(analysedWireFields))
+	for n := range analysedWireFields {
+		names = append(names, n)
+	}
+	sort.Strings(names)
+	for _, n := range names {
+		nt := p.NamedType(p.Trie, n)
+		if nt == nil {
+			r.Unk("wire message "+n, "", "type not found in package trie")
+			continue
+		}
+		st, ok := nt.Underlying().(*types.Struct)
+		if !ok {
+			r.Unk("wire message "+n, "", "not a struct")
+			continue
+		}
+		known := map[string]bool{}
+		for _, f := range analysedWireFields[n] {
+			known[f] = true
+		}
+		var unknown []string
+		cnt := 0
+		for i := 0; i < st.NumFields(); i++ {
+			if !strings.Contains(st.Tag(i), "protobuf:") {
+				continue
+			}
+			cnt++
+			if !known[st.Field(i).Name()] {
+				unknown = append(unknown, st.Field(i).Name())
+			}
+		}
+		if len(unknown) > 0 {
+			r.Unk("wire message "+n, p.Pos(nt.Obj().Pos()), fmt.Sprintf("serialized field(s) %v are not in the analysed set: what they add to the serialized size per key is not decided", unknown))
+		} else {
+			r.OK("wire message "+n, p.Pos(nt.Obj().Pos()), fmt.Sprintf("%d serialized fields, all analysed", cnt))
+		}
+	}
 }
